@@ -25,7 +25,7 @@ import re
 import sys
 
 REPO = os.environ.get("VERIF_REPO", "/repo")
-OUT = os.path.join(os.path.dirname(os.path.abspath(__file__)), "..", "coq", "gen", "Src.v")
+OUT = os.environ.get("VERIF_SRC_OUT") or os.path.join(os.path.dirname(os.path.abspath(__file__)), "..", "coq", "gen", "Src.v")
 
 
 def read(rel):
@@ -1042,5 +1042,19 @@ def main():
         print("src2v: unchanged", outp)
 
 
+def main2():
+    """second part of Tie A (decision logic): tools/src2v2.py -> coq/gen/Src2.v; fails closed as a whole"""
+    sys.path.insert(0, os.path.dirname(os.path.abspath(__file__)))
+    try:
+        import src2v2
+        src2v2.main()
+    except Exception as e:  # fail closed: the lemmas of SrcTie2*.v stop compiling
+        outp = os.environ.get("VERIF_SRC2_OUT") or os.path.join(os.path.dirname(os.path.normpath(OUT)), "Src2.v")
+        with open(outp, "w") as f:
+            f.write("(* GENERATED: tools/src2v2.py failed: %s *)\nDefinition src2_untranslatable : unit := tt.\n" % str(e).replace("*)", "* )"))
+        print("src2v2: FAILED", e)
+
+
 if __name__ == "__main__":
     main()
+    main2()
